@@ -89,7 +89,7 @@ Vector == (Emit /\ ph = 1) => PrintT(ToJson([
     res    |-> LET eo == EOrder(salt + 4) IN [i \in 1..Len(eo) |-> <<Pi[eo[i][1]], Pi[eo[i][2]]>>],
     avs    |-> LET vo == SetToSortSeq(AltV, LAMBDA a, b : LessV(a, b, salt + 6)) IN vo,
     aat    |-> LET vo == SetToSortSeq(AltV, LAMBDA a, b : LessV(a, b, salt + 6)) IN [i \in 1..Len(vo) |-> AltAttr[vo[i]]],
-    cands  |-> {{<<p[1], p[2], c[p]>> : p \in DOMAIN c} : c \in IdCands(V, E, Attr)},
+    cands  |-> IF Cardinality(V) > 5 /\ salt # 0 THEN {} ELSE {{<<p[1], p[2], c[p]>> : p \in DOMAIN c} : c \in IdCands(V, E, Attr)},
     equivRelabelled |-> TRUE,
     equivAltered    |-> FALSE ]))
 =============================================================================
